@@ -173,12 +173,12 @@ def one_run(run, tier, seed, bin_hash):
     t = run[tier] if tier in run else run["quick"]
     stats = {}
     with open(hist, "w") as hf:
-        corpus = os.path.join(ROOT, "corpus", prim + ".txt")
         ncorpus = 0
-        if os.path.exists(corpus) and run.get("corpus", True):
-            for l in open(corpus):
-                if l.strip() and not l.startswith("#"):
-                    hf.write(l.strip() + "\n"); ncorpus += 1
+        for corpus in (os.path.join(ROOT, "corpus", prim + ".txt"), os.path.join(ROOT, "corpus", name + ".txt")):
+            if os.path.exists(corpus) and run.get("corpus", True):
+                for l in open(corpus):
+                    if l.strip() and not l.startswith("#"):
+                        hf.write(l.strip() + "\n"); ncorpus += 1
         hf.flush()
         if t.get("explore"):
             r = subprocess.run([MODELRUN, "explore", prim, cfg, str(t["explore"])], stdout=hf, stderr=subprocess.PIPE, text=True)
@@ -246,7 +246,8 @@ def correspondence(prop, tier, seed):
     err = build_tools()
     if err:
         return dict(runs=[], problems=[err], mismatches=[], evaluations=0, states=0, transitions=0, build_failed=True)
-    bin_hash = sha(file_sha(MODELRUN), file_sha(HARNESS))
+    corpus_hash = sha(*[open(f, "rb").read() for f in sorted(glob.glob(os.path.join(ROOT, "corpus", "*.txt")))])
+    bin_hash = sha(file_sha(MODELRUN), file_sha(HARNESS), corpus_hash)
     with concurrent.futures.ThreadPoolExecutor(max_workers=16) as ex:
         results = list(ex.map(lambda r: one_run(r, tier, seed, bin_hash), runs))
     keys = set(spec["keys"])
